@@ -148,9 +148,24 @@ void vh_ambient_scramble(uint64_t k) {
   static const int errs[] = {0, ERANGE, EDOM, ENOMEM, EINVAL, EINTR, EILSEQ, EOVERFLOW};
   static const int rounds[] = {FE_TONEAREST, FE_UPWARD, FE_DOWNWARD, FE_TOWARDZERO};
   fesetround(rounds[(k >> 3) & 3]);
+#if defined(__x86_64__) || defined(__i386__)
+  { /* flush-to-zero / denormals-are-zero: the start-up state of anything linked with -ffast-math */
+    unsigned csr = __builtin_ia32_stmxcsr() & ~0x8040u;
+    unsigned sel = (unsigned)(k >> 5) & 3;
+    if (sel & 1) csr |= 0x8000u; /* FTZ */
+    if (sel & 2) csr |= 0x0040u; /* DAZ */
+    __builtin_ia32_ldmxcsr(csr);
+  }
+#endif
   errno = errs[k & 7];
 }
-void vh_ambient_restore(void) { fesetround(FE_TONEAREST); errno = 0; }
+void vh_ambient_restore(void) {
+  fesetround(FE_TONEAREST);
+#if defined(__x86_64__) || defined(__i386__)
+  __builtin_ia32_ldmxcsr(__builtin_ia32_stmxcsr() & ~0x8040u);
+#endif
+  errno = 0;
+}
 
 uint8_t* vh_exact(const uint8_t* p, size_t n) {
   uint8_t* q = malloc(n);
